@@ -36,7 +36,14 @@ func ZZVerif_C16_GERIndex() {
 	p := zzNewProcessor(path)
 	pool := [2]ethCommon.Hash{zzverif.Hash("ger"), zzverif.Hash("ger")}
 	zzverif.Assume(pool[0] != pool[1])
-	var live []zzRefRow
+	// the events, in block order; the reference set of live roots is computed from the blocks that remain after the reorg
+	type zzEv struct {
+		block uint64
+		kind  int
+		ger   ethCommon.Hash
+		index uint32
+	}
+	var evs []zzEv
 	for i := 0; i < k; i++ {
 		num := uint64(i + 1)
 		blk := sync.Block{Num: num, Hash: zzverif.Hash("bh")}
@@ -46,31 +53,43 @@ func ZZVerif_C16_GERIndex() {
 		switch kind {
 		case 1: // insertion reported as GERInfo (FEP downloader form)
 			blk.Events = append(blk.Events, &Event{GERInfo: &GlobalExitRootInfo{GlobalExitRoot: g, L1InfoTreeIndex: idx}})
-			live = append(live, zzRefRow{num, g, idx})
 		case 2: // insertion reported as GEREvent (PP downloader form)
 			blk.Events = append(blk.Events, &Event{GEREvent: &GEREvent{BlockNum: num, GlobalExitRoot: g, L1InfoTreeIndex: idx}})
-			live = append(live, zzRefRow{num, g, idx})
 		case 3: // removal
 			blk.Events = append(blk.Events, &Event{GEREvent: &GEREvent{BlockNum: num, GlobalExitRoot: g, IsRemove: true}})
-			kept := live[:0:0]
-			for _, r := range live {
-				if r.ger != g {
-					kept = append(kept, r)
-				}
-			}
-			live = kept
 		}
+		evs = append(evs, zzEv{num, kind, g, idx})
 		zzverif.Assert("block processed", p.ProcessBlock(ctx, blk) == nil)
 	}
 	if rb > 0 {
 		zzverif.Assert("reorg ok", p.Reorg(ctx, rb) == nil)
-		kept := live[:0:0]
-		for _, r := range live {
-			if r.block < rb {
-				kept = append(kept, r)
+	}
+	var live []zzRefRow
+	undone := false // a removal in an orphaned block had deleted a root injected in a kept block
+	for _, e := range evs {
+		orphaned := rb > 0 && e.block >= rb
+		switch {
+		case e.kind == 1 || e.kind == 2:
+			if !orphaned {
+				live = append(live, zzRefRow{e.block, e.ger, e.index})
 			}
+		case e.kind == 3:
+			kept := live[:0:0]
+			for _, r := range live {
+				if r.ger != e.ger {
+					kept = append(kept, r)
+				} else if orphaned {
+					kept = append(kept, r)
+					undone = true
+				}
+			}
+			live = kept
 		}
-		live = kept
+	}
+	if zzverif.Param("UNDONE") == 1 {
+		zzverif.Assume(undone) // known finding C16-2: the region where an orphaned removal had hit a surviving root
+	} else {
+		zzverif.Assume(!undone)
 	}
 	if zzverif.Bool("restart") {
 		p = zzNewProcessor(path)
